@@ -5,6 +5,7 @@ import Mathlib.Tactic.Ring
 import Mathlib.Tactic.Linarith
 import Mathlib.Tactic.FieldSimp
 import Mathlib.Tactic.Positivity
+import Mathlib.Tactic.LinearCombination
 /-!
 Rational arithmetic for C13: the model's `distSq` is the specification's `segDist2`, and
 `segDist2` is the squared distance to the nearest point of the closed segment.
@@ -151,10 +152,49 @@ theorem distSq_eq_segDist2 (p a b : P) : distSq p a b = segDist2 p a b := by
   simp only [distSq, segDist2, sub, dot, normSq, dist2, segPoint]
   exact this
 
+theorem proj_id (wx wy vx vy u : Rat) (hu : wx * vx + wy * vy = u * (vx * vx + vy * vy)) :
+    ((wx - u * vx) * (wx - u * vx) + (wy - u * vy) * (wy - u * vy)) * (vx * vx + vy * vy) =
+      (wx * wx + wy * wy) * (vx * vx + vy * vy) - (wx * vx + wy * vy) * (wx * vx + wy * vy) := by
+  linear_combination (wx * vx + wy * vy - u * (vx * vx + vy * vy)) * hu
+
+theorem proj_key (W c1 c2 t2 X : Rat) (hc2 : 0 < c2) (hX : X = (W * c2 - c1 * c1) / c2) :
+    decide (W * c2 - c1 * c1 > t2 * c2) = decide (X > t2) := by
+  rw [hX]
+  apply decide_eq_decide.mpr
+  rw [gt_iff_lt, gt_iff_lt, lt_div_iff₀ hc2]
+
+/-- the division-free distance test of the model is the test on `distSq` -/
+theorem farSq_eq (t2 : Rat) (p a b : P) : farSq t2 p a b = decide (distSq p a b > t2) := by
+  obtain ⟨px, py⟩ := p
+  obtain ⟨ax, ay⟩ := a
+  obtain ⟨bx, b_y⟩ := b
+  simp only [farSq, distSq, sub, dot, normSq]
+  by_cases h1 : (px - ax) * (bx - ax) + (py - ay) * (b_y - ay) ≤ 0
+  · simp only [h1, if_true]
+    exact decide_eq_decide.mpr Iff.rfl
+  · simp only [h1, if_false]
+    by_cases h2 : (bx - ax) * (bx - ax) + (b_y - ay) * (b_y - ay) ≤ (px - ax) * (bx - ax) + (py - ay) * (b_y - ay)
+    · simp only [h2, if_true]
+      exact decide_eq_decide.mpr Iff.rfl
+    · simp only [h2, if_false]
+      have hc1 : 0 < (px - ax) * (bx - ax) + (py - ay) * (b_y - ay) := not_le.mp h1
+      have hc2 : 0 < (bx - ax) * (bx - ax) + (b_y - ay) * (b_y - ay) := lt_trans hc1 (not_le.mp h2)
+      have hne : (bx - ax) * (bx - ax) + (b_y - ay) * (b_y - ay) ≠ 0 := ne_of_gt hc2
+      refine proj_key _ _ _ _ _ hc2 ?_
+      rw [eq_div_iff hne]
+      have := proj_id (px - ax) (py - ay) (bx - ax) (b_y - ay)
+        (((px - ax) * (bx - ax) + (py - ay) * (b_y - ay)) / ((bx - ax) * (bx - ax) + (b_y - ay) * (b_y - ay)))
+        (by rw [div_mul_cancel₀ _ hne])
+      linear_combination this
+
+theorem far_spec (tol : Rat) (p a b : P) :
+    far tol p a b = (decide (tol < 0) || decide (distSq p a b > tol * tol)) := by
+  unfold far; rw [farSq_eq]
+
 /-- a vertex that is not a candidate is within the tolerance in the sense of the specification -/
 theorem within_of_not_far {tol : Rat} {p a b : P} (h : far tol p a b = false) :
     within tol 0 p a b = true := by
-  unfold far at h
+  rw [far_spec] at h
   simp only [Bool.or_eq_false_iff, decide_eq_false_iff_not, not_lt] at h
   unfold within
   rw [← distSq_eq_segDist2]
